@@ -42,7 +42,7 @@ def c13_pda(R, n=3):
     return fails
 
 
-def c13_cfg(G, n=3):
+def c13_cfg(G, n=3, roundtrip=True):
     fails = []
     L = C.lang(G, n)
     ok, p = guarded('C13.to_pda', lambda: C.build(G).to_pda(), fails)
@@ -50,7 +50,7 @@ def c13_cfg(G, n=3):
         X = P.extract(p); alpha = sorted({t[1] for t in C.terminals(G)}, key=repr)
         got = {w for w in words(alpha, n) if P.accepts(X, w, 'empty')}
         if got != L: fails.append(fail('C13.to_pda.language', f'differs on {sorted(got ^ L)[:3]}'))
-        ok2, back = guarded('C13.to_pda.to_cfg', p.to_cfg, fails)
+        ok2, back = guarded('C13.to_pda.to_cfg', p.to_cfg, fails) if roundtrip else (False, None)
         if ok2:
             got = C.lang(C.extract(back), n)
             if got != L: fails.append(fail('C13.to_pda.to_cfg.language', f'differs on {sorted(got ^ L)[:3]}'))
